@@ -733,6 +733,43 @@ class SymName:
         return "SymName(%s)" % self.idx
 
 
+class SymSeq:
+    """a nucleotide string of concrete length whose characters are symbolic names over a small alphabet; supports what
+    scan_orfs needs: upper(), len(), slicing by concrete indices, equality with a plain string"""
+    __slots__ = ("chars",)
+    _sx_sym = True
+
+    def __init__(self, chars):
+        self.chars = list(chars)
+
+    def upper(self):
+        return SymSeq([SymName(c.idx, [n.upper() for n in c.names]) for c in self.chars])
+
+    def __len__(self):
+        return _o_len(self.chars)
+
+    def __getitem__(self, key):
+        if _o_isinstance(key, slice):
+            return SymSeq(self.chars[key])
+        return self.chars[key]
+
+    def __eq__(self, o):
+        if _o_isinstance(o, _o_str):
+            if _o_len(o) != _o_len(self.chars):
+                return False
+            return SymBool(z3.And([(c == ch).z for c, ch in zip(self.chars, o)]))
+        return NotImplemented
+
+    def __ne__(self, o):
+        r = self.__eq__(o)
+        if r is NotImplemented or type(r) is bool:
+            return r if r is NotImplemented else not r
+        return SymBool(z3.Not(r.z))
+
+    def __hash__(self):
+        raise Concretised("hash of a symbolic sequence")
+
+
 class SymSet(frozenset):
     """a module-level constant set re-wrapped so that membership of a SymName stays symbolic (data only, no logic)"""
     def __contains__(self, x):
